@@ -209,6 +209,7 @@ type pendingQuery struct {
 	script    string
 	intScript string
 	intSmall  string
+	noRetry   bool
 	getvals   []string // names for values
 	timeout   int
 	kind      string
@@ -460,6 +461,7 @@ func (r *Runner) runJob(job Job) *JobResult {
 				q.intSmall = ""
 				q.intScript = ""
 				res.Lattice = job.LatticeOnly
+				q.noRetry = true
 			}
 			if job.Cube > 0 && ob.Kind != "cover" {
 				cubes := signCubes(ob.Formula, job.Cube)
@@ -501,7 +503,7 @@ func (r *Runner) dispatch(q *pendingQuery, nTraces int, traceNames []string) {
 }
 
 func (r *Runner) solveOne(q *pendingQuery, traceNames []string) {
-	sr, _ := portfolio(q.script, q.intSmall, q.timeout)
+	sr, _ := portfolio(q.script, q.intSmall, q.timeout, q.noRetry)
 	if sr.status == "error" {
 		q.res.detail = firstLines(sr.raw, 3)
 	}
